@@ -237,12 +237,12 @@ class VSpec:
             self.ft = I(0)
             return OK
         if op == 'set_fprecision':
-            if I(0) < 1:
+            if I(0) < 1 or I(0) > 1000:      # 1 .. VNADATA_MAX_PRECISION
                 return FAIL
             self.fp = I(0)
             return OK
         if op == 'set_dprecision':
-            if I(0) < 1:
+            if I(0) < 1 or I(0) > 1000:
                 return FAIL
             self.dp = I(0)
             return OK
